@@ -54,9 +54,13 @@ def file_cases(tier, seed):
         tr = sorted([[rng.randrange(0, 5), rng.randrange(0, size + 1)] for _ in range(rng.randrange(0, 3))])
         add(kind=rng.choice(["stream", "stream", "serve"]) if b > a else "stream", size=size, a=a, b=b, trunc=tr,
             mt_s=1000000000, mt_ns=rng.choice([0, 7]))
+    # modification times around and before the epoch (a file dated 1969 is still a regular file)
+    for mt_s, mt_ns in ((0, 0), (0, 1), (-1, 0), (-1, 999999999), (-2, 500000000), (-86400 * 365 * 30, 7)):
+        add(kind="stream", size=10, a=2, b=9, mt_s=mt_s, mt_ns=mt_ns)
     # version histories
     steps_pool = [["open"], ["append", 1], ["append", 70000], ["touch", 1000000005, 0], ["touch", 1000000000, 1],
-                  ["touch", 1000000000, 999999999], ["rewrite"], ["replace"]]
+                  ["touch", 1000000000, 999999999], ["rewrite"], ["replace"], ["touch", -1, 500000000], ["touch", 0, 500000000],
+                  ["touch", -2, 500000000]]
     for n in (1, 2, 3):
         combos = list(itertools.product(steps_pool, repeat=n))
         if not T and len(combos) > 150:
